@@ -23,19 +23,37 @@ theorem Reader.rest_adv (r : Reader) (bs t : Bytes) (h : r.rest = bs ++ t) :
 theorem Reader.rest_adv' (r : Reader) (bs t : Bytes) (n : Nat) (h : r.rest = bs ++ t)
     (hn : bs.length = n) : (r.adv n).rest = t := hn ▸ r.rest_adv bs t h
 
+theorem takeFrom_eq (a : Array Byte) (i n : Nat) : takeFrom a i n = (a.toList.drop i).take n := by
+  induction n generalizing i with
+  | zero => simp [takeFrom]
+  | succ n ih =>
+    unfold takeFrom
+    by_cases hi : i < a.size
+    · have h1 : a[i]? = some a[i] := Array.getElem?_eq_getElem hi
+      rw [h1]
+      simp only
+      rw [ih (i+1)]
+      have hl : i < a.toList.length := by simpa using hi
+      rw [List.drop_eq_getElem_cons hl]
+      simp
+    · have h1 : a[i]? = none := Array.getElem?_eq_none (by omega)
+      rw [h1]
+      have : a.toList.drop i = [] := List.drop_eq_nil_of_le (by simp; omega)
+      simp [this]
+
 theorem Reader.pos_lt_of_rest (r : Reader) (b : Byte) (t : Bytes) (h : r.rest = b :: t) :
-    r.pos < r.data.length := by
+    r.pos < r.data.size := by
   unfold Reader.rest at h
-  by_cases hp : r.pos < r.data.length
+  by_cases hp : r.pos < r.data.size
   · exact hp
-  · rw [List.drop_eq_nil_of_le (by omega)] at h; cases h
+  · rw [List.drop_eq_nil_of_le (by simp; omega)] at h; cases h
 
 theorem readByte_cons (r : Reader) (b : Byte) (t : Bytes) (h : r.rest = b :: t) :
     readByte r = (.ok b, r.adv 1) := by
   have hp := r.pos_lt_of_rest b t h
   unfold Reader.rest at h
   have hb : r.data[r.pos]? = some b := by
-    have := List.getElem?_drop (xs := r.data) (i := r.pos) (j := 0)
+    have := List.getElem?_drop (xs := r.data.toList) (i := r.pos) (j := 0)
     rw [h] at this
     simpa using this.symm
   simp [readByte, hb, Reader.adv]
@@ -50,8 +68,8 @@ theorem readBuf_full (r : Reader) (bs t : Bytes) (h : r.rest = bs ++ t) (hne : b
   have hp := r.pos_lt_of_rest b (bs' ++ t) (by simpa using h)
   unfold Reader.rest at h
   unfold readBuf
-  have : ¬ (r.pos ≥ r.data.length) := by omega
-  simp only [this, if_false, h]
+  have : ¬ (r.pos ≥ r.data.size) := by omega
+  simp only [this, if_false, takeFrom_eq, h]
   simp [Reader.adv, zeros]
 
 theorem bReadU_be (r : Reader) (n x : Nat) (t : Bytes) (hn : 0 < n) (h : r.rest = be n x ++ t) :
@@ -91,7 +109,7 @@ theorem readHead_writeHead (r : Reader) (ty tag : Nat) (t : Bytes) (hty : ty < 1
     have : tag % 256 = tag := Nat.mod_eq_of_lt htag
     simp [this]
 
-theorem Reader.fuel_succ (r : Reader) : r.fuel = (2 * r.data.length + 7) + 1 := rfl
+theorem Reader.fuel_succ (r : Reader) : r.fuel = (2 * r.data.size + 7) + 1 := rfl
 
 /-- `SkipToNoCheck` finds a field that is next in the input -/
 theorem skipToNoCheck_hit (r : Reader) (ty tag : Nat) (req : Bool) (t : Bytes)
